@@ -109,3 +109,7 @@ def run(rep, tier):
         ["(pointer,size) parameter pairs as tabled in props/memsafe.py (naming convention + confirmed overrides)",
          "mathematical integers: size arithmetic is assumed not to overflow 2^64 except where the code subtracts unsigned values"],
         TRUSTED)
+
+
+def selftest():
+    memsafe.selftest_cursor()
